@@ -1,46 +1,124 @@
 import Driver.Util
 import AslModel.Model.CodeFile
-/-! Driver mode `c04`: one program per request line.
+import AslModel.Model.CodeStmt
+/-! Driver mode `c04`: one program per request line; mode `c04s`: one `asl` call with several sources per line.
 
-request : `<filehex> <cpu> <seg> <gran> <pc0> <entry|-> ev*`   with ev = `e:<hex>` | `j:<cpu>,<seg>,<gran>,<pc>`
-answer  : `parse=<ok|bad> model=<eq|ne> cells=<eq|ne> consistent=<ok|bad> l2=<eq|ne> nrec=<n> [modelfile=<hex>]`
+request `c04`  : `<filehex> <cpu> <seg> <gran> <pc0> <end> st*`
+request `c04s` : the same groups, one per source in command-line order, separated by a `|` word
+  `<end>` = `-` (no END statement) | `e` (END without operand) | `<n>` (END <n>)
+  st = `e:<hex>`                        a statement that hands these bytes to WriteBytes once
+     | `j:<cpu>,<seg>,<gran>,<pc>`      a DontPrint statement (ORG, reservation, SEGMENT, CPU ...): NewRecord(pc) in that context
+     | `b:<ofs>,<len|->,<filehex>`      BINCLUDE of a file with these contents
+     | `p:<n>`                          the source is assembled in n further passes
+     | `q:<n>`                          cost bound for executing the byte machine (L1) on this source, see `l1`
+answer per source (joined by ` | ` in mode `c04s`):
+  `parse=<ok|bad> model=<eq|ne> cells=<eq|ne> entry=<eq|ne> consistent=<ok|bad> l2=<eq|ne> l1=<run|thm> nrec=<n> [modelfile=<hex>]`
  * parse      – the SPEC reader accepts the real file
- * model      – real file = L1 byte machine's file (creator taken from the real file)
- * cells      – cells of the parsed real file = `specCells` of the statement list  (SPEC on IMPL)
+ * model      – real file = file of the MODEL (`CodeFile.session`: byte machine of asmcode.c under the block loop of
+                BINCLUDE and the per-pass globals; creator taken from the real file)
+ * cells      – cells of the parsed real file = `specCellsS` of the statement list  (SPEC on IMPL)
+ * entry      – entry records of the parsed real file = `specEntries` of the source's own END  (SPEC on IMPL)
  * consistent – every record non-empty, ≤ 65535 bytes, whole granules, gran ≠ 0
  * l2         – L1 file = long serialisation of the L2 record machine (model-internal refinement)
+ * l1         – `run`: the byte machine was executed.  `thm`: its file was obtained as the long serialisation of the record
+                machine, which is the same byte list by theorems `C04_refine`, `C04_session_independent` and
+                `C04_session_passes`; their hypotheses (every single `WriteBytes` call ≤ 65535 bytes, creator long enough)
+                are checked here.  The byte machine rewrites its file (a `List`) on every `fwrite`, i.e. costs about
+                (bytes / 512 + 8 · records) · bytes; `q:<n>` asks for `thm` when that estimate exceeds n.
 -/
 namespace Driver.C04
 open AslModel.PFile AslModel.CodeFile
 
-def parseEv (s : String) : Option Ev :=
-  if s.startsWith "e:" then (unhex (s.drop 2).toString).map Ev.emit
+inductive Tok where
+  | st (s : Stmt)
+  | passes (n : Nat)
+  | budget (n : Nat)
+
+def parseTok (s : String) : Option Tok :=
+  if s.startsWith "e:" then (unhex (s.drop 2).toString).map (fun x => Tok.st (.ev (.emit x)))
   else if s.startsWith "j:" then
     match ((s.drop 2).toString.splitOn ",").map String.toNat? with
-    | [some c, some sg, some g, some pc] => some (.jump ⟨b c, b sg, b g⟩ pc)
+    | [some c, some sg, some g, some pc] => some (.st (.ev (.jump ⟨b c, b sg, b g⟩ pc)))
     | _ => none
+  else if s.startsWith "b:" then
+    match (s.drop 2).toString.splitOn "," with
+    | [o, l, fh] =>
+      match o.toNat?, unhex fh with
+      | some ofs, some file => if l = "-" then some (.st (.binclude file ofs none)) else l.toNat?.map (fun n => .st (.binclude file ofs (some n)))
+      | _, _ => none
+    | _ => none
+  else if s.startsWith "p:" then (s.drop 2).toString.toNat?.map Tok.passes
+  else if s.startsWith "q:" then (s.drop 2).toString.toNat?.map Tok.budget
   else none
 
-def handle (line : String) : String :=
-  match words line with
-  | fh :: cpu :: seg :: gran :: pc0 :: ent :: evs =>
-    match unhex fh, cpu.toNat?, seg.toNat?, gran.toNat?, pc0.toNat?, evs.mapM parseEv with
-    | some file, some c, some s, some g, some pc, some evl =>
-      let ctx : Ctx := ⟨b c, b s, b g⟩
-      let entry := ent.toNat?
-      match parseFile file with
-      | none => "parse=bad model=? cells=? consistent=? l2=? nrec=0"
-      | some (items, creator) =>
-        let mfile := writeCodeFile ctx pc evl entry creator
-        let l2 := serFileLong (finishItems (run (init ctx pc) evl) entry) creator
-        let cellsOk := cellsOf items == specCells ctx pc evl
-        let cons := (dataRecs items).all (fun r => r.consistent && !r.data.isEmpty)
-        let entOk := entries items == (match entry with | some a => [a] | none => [])
-        let meq := mfile == file
-        s!"parse=ok model={if meq then "eq" else "ne"} cells={if cellsOk && entOk then "eq" else "ne"} consistent={if cons then "ok" else "bad"} l2={if l2 == mfile then "eq" else "ne"} nrec={(dataRecs items).length}" ++
-          (if meq then "" else s!" modelfile={hex mfile}")
-    | _, _, _, _, _, _ => "bad-request"
-  | _ => "bad-request"
+def parseEnd (s : String) : Option EndStmt :=
+  if s = "-" then some .absent else if s = "e" then some .plain else s.toNat?.map EndStmt.addr
+
+/-- one source: the real file and the source description (creator still empty) -/
+def parseGroup (ws : List String) : Option (List Byte × Src × Option Nat) :=
+  match ws with
+  | fh :: cpu :: seg :: gran :: pc0 :: ent :: toks =>
+    match unhex fh, cpu.toNat?, seg.toNat?, gran.toNat?, pc0.toNat?, parseEnd ent, toks.mapM parseTok with
+    | some file, some c, some s, some g, some pc, some e, some tl =>
+      let stmts := tl.filterMap (fun t => match t with | .st x => some x | _ => none)
+      let np := tl.foldl (fun a t => match t with | .passes n => a + n | _ => a) 0
+      let q := tl.foldl (fun a t => match t with | .budget n => some n | _ => a) none
+      some (file, { ctx := ⟨b c, b s, b g⟩, pc0 := pc, stmts := stmts, endS := e, morePasses := np, creator := [] }, q)
+    | _, _, _, _, _, _, _ => none
+  | _ => none
+
+def splitGroups (ws : List String) : List (List String) :=
+  let r := ws.foldl (fun (acc : List (List String) × List String) w =>
+    if w = "|" then (acc.2.reverse :: acc.1, []) else (acc.1, w :: acc.2)) ([], [])
+  (r.2.reverse :: r.1).reverse
+
+def entryArg (s : Src) : Option Nat := match s.endS with | .addr a => some a | _ => none
+
+/-- the file of the record machine (L2), serialised in the long form -/
+def l2File (s : Src) : List Byte :=
+  serFileLong (finishItems (run (init s.ctx s.pc0) (expand s.ctx s.pc0 s.stmts)) (entryArg s)) s.creator
+
+/-- may the byte machine be replaced by `l2File`?  (cost estimate above the bound, hypotheses of `C04_refine` hold) -/
+def useThm (s : Src) (q : Option Nat) : Bool :=
+  match q with
+  | none => false
+  | some bound =>
+    let evl := expand s.ctx s.pc0 s.stmts
+    let total := evl.foldl (fun a e => match e with | .emit bs => a + bs.length | .jump _ _ => a) 0
+    let jumps := evl.foldl (fun a e => match e with | .emit _ => a | .jump _ _ => a + 1) 0
+    let small := evl.all (fun e => match e with | .emit bs => decide (bs.length ≤ 65535) | .jump _ _ => true)
+    let hlen := decide (10 ≤ (match entryArg s with | some _ => 5 | none => 0) + 1 + s.creator.length)
+    decide ((total / 512 + 8 * jumps + 1) * total > bound) && small && hlen
+
+/-- verdict on one real file against its source and the model's file -/
+def judge (file : List Byte) (s : Src) (items : List Item) (mfile : List Byte) (thm : Bool) : String :=
+  let cellsOk := cellsOf items == specCellsS s.ctx s.pc0 s.stmts
+  let entOk := entries items == specEntries s.endS
+  let cons := (dataRecs items).all (fun r => r.consistent && !r.data.isEmpty)
+  let meq := mfile == file
+  -- L1 = L2 on this source (`mfile` is the byte machine's file unless `thm`; trivially so when L1 was not executed)
+  let l2ok := thm || l2File s == mfile
+  s!"parse=ok model={if meq then "eq" else "ne"} cells={if cellsOk then "eq" else "ne"} entry={if entOk then "eq" else "ne"} consistent={if cons then "ok" else "bad"} l2={if l2ok then "eq" else "ne"} l1={if thm then "thm" else "run"} nrec={(dataRecs items).length}" ++
+    (if meq then "" else s!" modelfile={hex mfile}")
+
+def handleSession (line : String) : String :=
+  match (splitGroups (words line)).mapM parseGroup with
+  | none => "bad-request"
+  | some gs =>
+    -- the creator string is taken from each real file (it is not part of what the source specifies)
+    let parsed := gs.map (fun (file, s, q) => (file, s, q, parseFile file))
+    let srcs := parsed.map (fun (_, s, q, p) => (match p with | some (_, cr) => { s with creator := cr } | none => s, q))
+    let thms := srcs.map (fun (s, q) => useThm s q)
+    let mfiles := if thms.any id then (srcs.zip thms).map (fun ((s, _), t) => if t then l2File s else alone s)
+                  else session {} (srcs.map (·.1))
+    let answers := (parsed.zip (srcs.zip (mfiles.zip thms))).map (fun ((file, _, _, p), ((s, _), (mf, t))) =>
+      match p with
+      | none => "parse=bad model=? cells=? entry=? consistent=? l2=? l1=? nrec=0"
+      | some (items, _) => judge file s items mf t)
+    " | ".intercalate answers
+
+/-- one source = a session of one -/
+def handle (line : String) : String := handleSession line
 
 /-- mode `pfile`: SPEC reader on a file; canonical rendering of the items -/
 def handleParse (line : String) : String :=
